@@ -512,6 +512,13 @@ func markLocallyShadowedCalls(form *lisp.LVal, binds *lisp.LVal, funBinding bool
 //     entries additionally carry a formals list.
 func aritySkipNodes(exprs []*lisp.LVal) map[*lisp.LVal]bool {
 	skip := make(map[*lisp.LVal]bool)
+	// '(...), [...] and ''x are data all the way down: a list nested inside
+	// a quoted list is not a call either.
+	Walk(exprs, func(node *lisp.LVal, _ *lisp.LVal, _ int) {
+		if node.Type == lisp.LQuote || (node.Type == lisp.LSExpr && node.IsQuoted()) {
+			markDataNodes(node, skip)
+		}
+	})
 	WalkSExprs(exprs, func(sexpr *lisp.LVal, depth int) {
 		head := HeadSymbol(sexpr)
 		switch head {
